@@ -1,7 +1,6 @@
 package checks
 
 import (
-
 	"strings"
 	"testing"
 
@@ -94,6 +93,47 @@ func TestReplay_C03_AckABA(t *testing.T) {
 	}
 	report(t, res)
 	if res.Sim.Stats.C["storage.ack_aba_older_term"] == 0 {
+		t.Logf("trace:\n%s", strings.Join(res.Sim.Trace, "\n"))
+	}
+}
+
+// Scripted reach test: a deposed leader whose divergent tail is still in its
+// unstable log (its append acks lag) receives a snapshot that ends inside
+// that tail.
+func TestReplay_C09_SnapshotInsideUnstableTail(t *testing.T) {
+	w := world(3, []uint64{1, 2, 3}, func(id uint64, o *sim.NodeOpts) { o.Async = id == 1 })
+	res := sim.RunScript(w, []string{"C09", "C01"}, nil, func(s *sim.Sim) {
+		n1, n2 := s.Nodes[1], s.Nodes[2]
+		elect(s, 1)
+		n1.SlowAck = true
+		s.Isolate(n1)
+		for i := 0; i < 4; i++ {
+			s.Propose(n1, 8)
+		}
+		s.Service(n1)
+		for i := 0; i < 3 && n2.RN.BasicStatus().RaftState != raft.StateLeader; i++ {
+			s.TickUntilCampaign(n2)
+			s.Stabilize(6)
+		}
+		s.Propose(n2, 9)
+		s.Stabilize(6)
+		if lo, hi := s.RestartRange(n2); hi > lo {
+			s.Compact(n2, hi, hi)
+		}
+		dropAll(s) // what was sent across the partition is lost
+		s.Heal()
+		for i := 0; i < 3; i++ {
+			s.Tick(n2)
+			s.Stabilize(4)
+		}
+		n1.SlowAck = false
+		s.Stabilize(6)
+	})
+	for _, k := range []string{"snap.accepted", "snap.accepted_over_uncommitted_tail", "snap.accepted_inside_unstable_tail"} {
+		t.Logf("%s = %d", k, res.Sim.Stats.C[k])
+	}
+	report(t, res)
+	if res.Sim.Stats.C["snap.accepted_inside_unstable_tail"] == 0 {
 		t.Logf("trace:\n%s", strings.Join(res.Sim.Trace, "\n"))
 	}
 }
